@@ -93,7 +93,7 @@ def _case(spec):
 
 def run(ctx):
     cli = runner.build_cli()
-    n = ctx.pick(150, 6000)
+    n = ctx.pick(100, 6000)
     specs = []
     for prof in ("core", "plain", "keys"):
         for i in range(n):
